@@ -81,8 +81,8 @@ func c02LevelOrigin(c *Ctx) {
 		}
 		c.Check(len(bad) == 0, "level/from-selected-statement/"+fnName(fn), rule, site, detail)
 	}
-	if n < 3 {
-		c.Unk("level/from-selected-statement#count", "vacuity guard: SkipVerify, Verify and VerifyBlob hand a level on", "-", fmt.Sprintf("%d functions of package verifier store or return a level", n))
+	if n < 1 || c.Evals < 3 {
+		c.Unk("level/from-selected-statement#count", "vacuity guard: the verifier hands a level on (stored into an outcome, returned)", "-", fmt.Sprintf("%d functions of package verifier store or return a level", n))
 	}
 }
 
